@@ -712,9 +712,11 @@ def _worker_impl(args: tuple) -> dict:
                 key = final_signature(core, shrink(prog, core))[len("C01:"):]
             v = res["violations"].get(key)
             if v is None:
-                res["violations"][key] = {"count": 1, "core": core, "text": text, "detail": detail, "item": list(item)}
+                res["violations"][key] = {"count": 1, "core": core, "text": text, "detail": detail, "item": list(item), "members": [member_id(text)]}
             else:
                 v["count"] += 1
+                if len(v["members"]) < MEMBER_CAP:
+                    v["members"].append(member_id(text))
                 if (len(text), text) < (len(v["text"]), v["text"]):
                     v.update(text=text, detail=detail, item=list(item))
     return res
@@ -773,17 +775,32 @@ def describe_space(tier: str) -> str:
     return ", ".join(f"{f.name}={len(f)}" for f in P.space(tier))
 
 
+MEMBER_CAP = 400
+
+
+def member_id(text: str) -> str:
+    """Identity of one failing input inside a violation class (known_findings.json lists the members it covers)."""
+    import hashlib
+
+    return hashlib.sha1(text.encode()).hexdigest()[:12]
+
+
 def merge_violations(outs: list) -> dict:
     viol: dict = {}
     for o in outs:
         for sig, v in o["violations"].items():
             if sig not in viol:
                 viol[sig] = dict(v)
+                viol[sig]["members"] = list(v.get("members", []))
             else:
                 total = viol[sig]["count"] + v["count"]
+                members = viol[sig]["members"] + list(v.get("members", []))
                 if (len(v["text"]), v["text"]) < (len(viol[sig]["text"]), viol[sig]["text"]):
                     viol[sig] = dict(v)
                 viol[sig]["count"] = total
+                viol[sig]["members"] = members
+    for v in viol.values():
+        v["members"] = sorted(set(v["members"]))[:MEMBER_CAP]
     return viol
 
 
@@ -862,7 +879,7 @@ def run(ctx: Ctx) -> PropResult:
                 input={"text": v["text"], "core": v["core"], "original_text": v["original_text"]},
                 contract=CONTRACT,
                 observed={"compiled": v["compiled"], "distinguishing_path": v["detail"]},
-                extra={"count": v["count"], "original_item": v["item"]},
+                extra={"count": v["count"], "original_item": v["item"], "members": v.get("members", [])},
             )
         )
     res.extra["wall_s_run"] = round(time.time() - t0, 1)
